@@ -85,6 +85,8 @@ def build(run):
                         continue
                     out.append({"sid": sid, "md": mdi, "itype": it, "dom": 1, "cd": None})
         out += [{"sid": sid, "md": mdi, "itype": "dx", "dom": 2, "cd": None} for sid in ("everywhere", 1) for mdi in (0, 1)]
+        # subdomain ids that are numbers.Integral without being Python ints (entries of a mesh tag array)
+        out += [{"sid": sid, "md": mdi, "itype": "dx", "dom": 1, "cd": None} for sid in (np.int32(1), (np.int64(2), 3), np.int64(3)) for mdi in (0, 1)]
         out += [{"sid": sid, "md": mdi, "itype": "dpatch", "dom": 1, "cd": None} for sid in ("everywhere", 1, (1, 2)) for mdi in (0, 1)]
         out += [{"sid": sid, "md": mdi, "itype": "dx", "dom": 1, "cd": k} for sid in ("everywhere", 1, (1, 2)) for mdi in (0, 1) for k in (0, 1)]
         return out
